@@ -111,15 +111,9 @@ theorem ulpsEq32_b_half :
     norm_num [XQ.absQ, Fmt.eps, Fmt.mant]
   rw [this, Bool.true_or]
 
-/-- two different f32 base rates for which the shortcut is only taken where they agree -/
+/-- two different f32 base rates: the shortcut is only taken where they agree (true of ANY two base rates since repair
+    c8a7116, `FuseQ.hsc`; with the `ulps_eq!` shortcut this needed the two lemmas above) -/
 theorem hsc32_witness : ∀ i, sc Fmt.f32 (n := 3) ![1/2, 1/2, 0] ![1/2, 0, 1/2] i = true →
-    (![1/2, 1/2, 0] : Fin 3 → ℚ) i = (![1/2, 0, 1/2] : Fin 3 → ℚ) i := by
-  have s1 : sc Fmt.f32 (n := 3) ![1/2, 1/2, 0] ![1/2, 0, 1/2] 1 = false := ulpsEq32_half_zero.1
-  have s2 : sc Fmt.f32 (n := 3) ![1/2, 1/2, 0] ![1/2, 0, 1/2] 2 = false := ulpsEq32_half_zero.2
-  intro i
-  refine Fin.cases ?_ (fun j => Fin.cases ?_ (fun k => Fin.cases ?_ (fun l => l.elim0) k) j) i
-  · intro _; rfl
-  · intro h; exact absurd (s1.symm.trans h) (by decide)
-  · intro h; exact absurd (s2.symm.trans h) (by decide)
+    (![1/2, 1/2, 0] : Fin 3 → ℚ) i = (![1/2, 0, 1/2] : Fin 3 → ℚ) i := FuseQ.hsc _ _
 
 end SLV
